@@ -40,7 +40,7 @@ def rewrite_counter_for_faults(dst):
 FAULT_FILE = Suite(
     name="fault-file", harness="vh_fault", runner="fault",
     model_deps=["theories/Model/FileRest.vo", "theories/Model/FileFault.vo"],
-    quick_n=1800, thorough_n=9000, rewrite=rewrite_counter_for_faults, tags="verif,verifconc,veriffault",
+    quick_n=2400, thorough_n=9000, rewrite=rewrite_counter_for_faults, tags="verif,verifconc,veriffault",
     rule="(a) rest cases (2/3 of n): a counter file is built with the real code (1-6 counters, same-bucket, long and "
          "short names, four header lengths), damaged at rest by one of: allocation limit (0, inside header / table, "
          "at / inside / just after a record, true limit +-32, at / beyond EOF, values whose page rounding wraps around "
